@@ -10,7 +10,7 @@ import (
 func init() {
 	Registry["C01"] = RuleDef{Module: ".", Run: runC01,
 		Technique:   "who-may-call rule on the queue interface, must-pass / escape rules for enqueued slots and the in-flight counter, typestate rule on pooled buffers, guard rule on the synchronous fast path, value-provenance rules in the reader and writer loops",
-		Explanation: "Decides structural necessary conditions of the FIFO hand-off on one connection: (R01a) the queue's consumer methods are called only by the single writer and the single reader/teardown goroutine, which are started only from _background, itself started under a compare-and-swap latch; (R01b) every slot a caller enqueues is received from on every path, or handed to a goroutine that receives from it when the caller abandons the call; (R01c) every increment of the in-flight counter is matched by a decrement on every path (directly, in the abandon goroutine, or by the stream that takes ownership); (R01e) a pooled buffer is never used after it was returned to its pool, and a result buffer handed to the queue is never returned to the caller that abandoned the call (the reader may still write late replies into it); (R01g) the synchronous fast path is taken only by a lone caller on a connection in synchronous state; (R01f) the reader delivers exactly the reply it just read, stored at the fulfilment index which then advances by one; (R01d) the writer writes exactly the commands it dequeued, in slice order, before dequeuing again.",
+		Explanation: "Decides structural necessary conditions of the FIFO hand-off on one connection: (R01a) the queue's consumer methods are called only by the single writer and the single reader/teardown goroutine, which are started only from _background, itself started under a compare-and-swap latch; (R01b) every slot a caller enqueues is received from on every path, or handed to a goroutine that receives from it when the caller abandons the call; (R01c) every increment of the in-flight counter is matched by a decrement on every path (directly, in the abandon goroutine, or by the stream that takes ownership); (R01e) a pooled buffer is never used after it was returned to its pool, and a result buffer handed to the queue is never returned to the caller that abandoned the call (the reader may still write late replies into it); (R01g) the synchronous fast path is taken only by a lone caller on a connection in synchronous state; (R01h) the background reader is started only where no other caller can be inside a synchronous read of the socket (construction, the lone registered caller, after the caller's own exchange, after the caller closed the connection on its own I/O error); (R01f) the reader delivers exactly the reply it just read, stored at the fulfilment index which then advances by one; (R01d) the writer writes exactly the commands it dequeued, in slice order, before dequeuing again.",
 		NotDecided:  "slot-to-reply matching across interleavings, push-frame skipping and cancellation races (the data-dependent heart of the property); see C02 for the queue's own state machine."}
 }
 
@@ -411,6 +411,55 @@ func runC01(r *Report) {
 			r.ObSite("R01g", s, "stream-write-only-for-lone-caller", state0 && lone, "a streaming request writes to the socket only in synchronous state and as the only caller in flight")
 		}
 	}
+
+	// R01h: the background reader is never started while another caller may still be reading its own
+	// reply from the socket. Every start happens (a) while the pipe is under construction, (b) by
+	// the only registered caller (incrWaits() == 1), (c) after the caller's own synchronous exchange
+	// is over (its decrWaitsAndIncrRecvs dominates), or (d) right after the caller itself closed the
+	// connection on an I/O error of its own synchronous exchange.
+	nBg := 0
+	for _, fn := range p.Funcs(P) {
+		for _, s := range CallSites(fn, P+"background") {
+			nBg++
+			why := ""
+			switch {
+			case FuncName(fn) == "rueidis._newPipe":
+				why = "construction"
+			}
+			if why == "" {
+				for _, g := range DomGuards(s.Block) {
+					x, op, y, ok := CmpGuard(g)
+					k, isc := ConstInt(y)
+					if c, iscall := Strip(x).(*ssa.Call); ok && op == token.EQL && isc && k == 1 && iscall && CalleeName(c) == P+"incrWaits" {
+						why = "lone caller"
+					}
+				}
+			}
+			if why == "" {
+				for _, d := range CallSites(fn, P+"decrWaitsAndIncrRecvs") {
+					if Dominates(d, s) {
+						why = "own exchange finished"
+					}
+				}
+			}
+			if why == "" {
+				// preceded in the same block by the close of the connection
+				for _, in := range s.Block.Instrs[:s.Idx] {
+					if c, ok := in.(ssa.CallInstruction); ok && strings.HasSuffix(CalleeName(c), "net.Conn.Close") {
+						why = "after closing the connection on the caller's own I/O error"
+					}
+				}
+			}
+			r.ObSite("R01h", s, "background-started-only-when-no-sync-reader", why != "", "the background reader is started only when no other caller can be in a synchronous read: construction, lone caller (incrWaits()==1), after the caller's own exchange, or after the caller closed the connection; here: "+why)
+		}
+	}
+	if f := p.Fn("rueidis._newPipe"); f != nil {
+		for _, s := range CallSites(f, P+"background") {
+			nBg++
+			r.ObSite("R01h", s, "background-started-only-when-no-sync-reader", true, "construction: the pipe is not shared yet")
+		}
+	}
+	r.Anchor("R01h", "background() call sites (>= 10)", nBg >= 10)
 
 	// R01f reader delivers what it read
 	if rd := r.FnAnchor("R01f", P+"_backgroundRead"); rd != nil {
